@@ -11,6 +11,7 @@ CONSTANTS
   MaxDepth = 2
   CellMask = TRUE
   CopyClear = TRUE
+  DataCopyDepth = 2
   Valueless = TRUE
   Deviations = {}
 VIEW vw
